@@ -56,7 +56,8 @@ class Flag(BaseType, IntFlag, metaclass=EnumMetaType):
             return result
 
     def __eq__(self, other: int | Flag) -> bool:
-        if isinstance(other, Flag) and other.__class__ is not self.__class__:
+        if isinstance(type(other), EnumMetaType) and other.__class__ is not self.__class__:
+            # Members of another flag or enum
             return False
 
         # Python <= 3.10 compatibility
